@@ -218,6 +218,7 @@ package aof
 //@   ghost buf0 []byte = nil
 //@   at call Read#1: assert entries-are-read-in-index-order: callarg0 == d.log && callarg1 == applied + 1
 //@   at after call Read#1: ghost buf0 := callresult0
+//@   at call Read#1: ghost herr := nil
 //@   at call UnmarshalVT#1: assert entry-is-decoded-from-its-own-buffer-only: callarg0 == entry && callarg1 == buf0 && entry.Version == proto.LogVersion_UNKNOWN_VERSION && entry.Data == nil && entry.Checksum == 0
 //@   at call decodeEntry#1: assert every-entry-is-verified-into-a-clean-mutation: callarg1 == entry && callarg2 == mut && mut.Type == proto.MutationType_UNKNOWN_TYPE && mut.Key == nil && mut.Value == nil && mut.Keys == nil && mut.Values == nil
 //@   at call handleMutation#1: assume logged-imports-were-well-formed-when-issued: mut.Type == proto.MutationType_IMPORT ==> (len(mut.Keys) == len(mut.Values) && (forall i int {mut.Values[i]} :: (0 <= i && i < len(mut.Values)) ==> mut.Values[i] != nil) && (forall i int, j int {mut.Keys[i], mut.Keys[j]} :: (0 <= i && i < j && j < len(mut.Keys)) ==> str(mut.Keys[i]) != str(mut.Keys[j])))
@@ -226,7 +227,7 @@ package aof
 //@   at after call handleMutation#1: ghost applied := applied + 1
 //@   ensures local-success-applies-every-entry-in-order-and-sets-the-counter: err == nil ==> (applied == old(d.log.last) && d.counter == old(d.log.last) + 1)
 //@   ensures local-a-logged-mutation-the-store-had-rejected-does-not-fail-recovery: err != nil ==> herr != chord.ErrKVPrefixConflict
-//@   loop buf: invariant idx: 1 <= i && i <= index + 1 && applied == i - 1 && index == old(d.log.last) && d.log.last == old(d.log.last) && herr == nil
+//@   loop buf: invariant idx: 1 <= i && i <= index + 1 && applied == i - 1 && index == old(d.log.last) && d.log.last == old(d.log.last) && (herr == nil || herr == chord.ErrKVPrefixConflict)
 //@   loop buf: invariant clean-messages: entry != nil && mut != nil && entry.Version == proto.LogVersion_UNKNOWN_VERSION && entry.Data == nil && entry.Checksum == 0 && mut.Type == proto.MutationType_UNKNOWN_TYPE && mut.Key == nil && mut.Value == nil && mut.Keys == nil && mut.Values == nil
 //@   loop buf: invariant store: memory.repOK(d.memKv) && memory.empty == nil && d.memKv == old(d.memKv) && d.log == old(d.log)
 
